@@ -43,14 +43,17 @@ Definition outcome_eqb (a b : outcome) : bool :=
   end.
 
 (* [tdied]: the objects observed to have been garbage-collected by the end of the step *)
-Record tstep := mkT { top : op; tdied : list handle; tout : outcome; tst : state }.
+(* [tshare]: the step is the constructor applied to a caller-supplied tuple (Vector(T)) - the one
+   operation that may share storage; every other step is run with [step_d] (Model/Heap.v), which
+   refuses to give a derived object storage that a live object holds *)
+Record tstep := mkT { top : op; tshare : bool; tdied : list handle; tout : outcome; tst : state }.
 
 (* index (from 1) of the first step whose outcome or state differs; 0 = the whole trace agrees *)
 Fixpoint run (s : state) (n : nat) (t : list tstep) : nat :=
   match t with
   | [] => 0
   | x :: r =>
-      let '(s0, out) := step s (top x) in
+      let '(s0, out) := (if tshare x then step s (top x) else step_d s (top x)) in
       let s' := collect s0 (tdied x) in
       if outcome_eqb out (tout x) && state_eqv s' (tst x) then run s' (S n) r else S n
   end.
